@@ -1,0 +1,24 @@
+//go:build verif
+
+package cli
+
+// VerifLoop exposes the editor's event loop to external verification
+// machinery. It is a thin wrapper: every method delegates to the loop.
+type VerifLoop struct{ lp *loop }
+
+// VerifNewLoop creates a new event loop.
+func VerifNewLoop() *VerifLoop { return &VerifLoop{newLoop()} }
+
+// HandleCb sets the callback for input events.
+func (l *VerifLoop) HandleCb(f func(ev any)) { l.lp.HandleCb(func(e event) { f(e) }) }
+
+// RedrawCb sets the redraw callback, which receives the full and final flags.
+func (l *VerifLoop) RedrawCb(f func(full, final bool)) {
+	l.lp.RedrawCb(func(flag redrawFlag) { f(flag&fullRedraw != 0, flag&finalRedraw != 0) })
+}
+
+func (l *VerifLoop) Redraw(full bool)                { l.lp.Redraw(full) }
+func (l *VerifLoop) Input(ev any)                    { l.lp.Input(ev) }
+func (l *VerifLoop) Return(buffer string, err error) { l.lp.Return(buffer, err) }
+func (l *VerifLoop) HasReturned() bool               { return l.lp.HasReturned() }
+func (l *VerifLoop) Run() (string, error)            { return l.lp.Run() }
